@@ -62,11 +62,15 @@ type Policy struct {
 	// and a comment line in front of every section); line layouts only — in the
 	// one-line layout a comment would run to the end of the program
 	Comments bool
+	// Damaged: one extra entry whose target is not a hex string (<00ZZ>) or not a
+	// whole number of UTF-16 units (<004200>) is written into one section, for a
+	// code that no entry of the map uses: nothing the map specifies depends on it
+	Damaged bool
 }
 
 func (p Policy) String() string {
 	return fmt.Sprintf("%s tight=%v upper=%v prange=%.2f parray=%.2f maxsec=%d abreak=%d hexblank=%v full=%v grouped=%v",
-		p.Layout, p.Tight, p.UpperHex, p.PRange, p.PArray, p.MaxSection, p.ArrayBreak, p.HexBlank, p.FullHeader, p.Grouped) + " sections=" + p.SectionOrder + fmt.Sprintf(" comments=%v", p.Comments)
+		p.Layout, p.Tight, p.UpperHex, p.PRange, p.PArray, p.MaxSection, p.ArrayBreak, p.HexBlank, p.FullHeader, p.Grouped) + " sections=" + p.SectionOrder + fmt.Sprintf(" comments=%v damaged=%v", p.Comments, p.Damaged)
 }
 
 // Stats says what the rendered program contains.
@@ -79,6 +83,7 @@ type Stats struct {
 	ArraysSharingLine               int               // array-form entries that share a physical line with another entry
 	MaxSectionEntries               int               // largest number of entries in one section (<= 100)
 	MaxArrayLen                     int               // longest array of an array-form entry
+	DamagedSection                  string            // "" | "bfchar #k of n" | "bfrange #k of n": where the damaged extra entry went
 	Form                            map[string]string // string(code) -> char | offset | array
 }
 
@@ -270,6 +275,33 @@ func Render(m *Map, p Policy, r *rand.Rand) ([]byte, Stats) {
 	// 3. sections
 	secStart := w.sb.Len()
 	var segs []string
+	damagedAt, damagedLine := -1, ""
+	if p.Damaged && len(items) > 0 {
+		used := map[string]bool{}
+		for _, e := range es {
+			used[string(e.Code)] = true
+		}
+		for try := 0; try < 50 && damagedAt < 0; try++ {
+			sp := m.Spaces[r.Intn(len(m.Spaces))]
+			code := make([]byte, len(sp.Lo))
+			for k := range code {
+				code[k] = sp.Lo[k] + byte(r.Intn(int(sp.Hi[k])-int(sp.Lo[k])+1))
+			}
+			if used[string(code)] {
+				continue
+			}
+			damagedAt = r.Intn(len(items))
+			bad := []string{"<00ZZ>", "<004200>", "<0g41>", "<D83D>"}[r.Intn(4)]
+			if items[damagedAt].kind == "char" {
+				damagedLine = w.hex(code) + w.sep() + bad
+			} else if r.Intn(2) == 0 {
+				damagedLine = w.hex(code) + w.sep() + w.hex(code) + w.sep() + bad
+			} else {
+				damagedLine = w.hex(code) + w.sep() + w.hex(code) + w.sep() + "[" + bad + "]"
+			}
+		}
+	}
+	charNo, rangeNo := 0, 0
 	for i := 0; i < len(items); {
 		class := items[i].kind == "char"
 		max := 1 + r.Intn(p.MaxSection)
@@ -283,10 +315,19 @@ func Render(m *Map, p Policy, r *rand.Rand) ([]byte, Stats) {
 		if comments && r.Intn(2) == 0 {
 			w.line("% the mappings of the next section follow")
 		}
+		extra := 0
+		if damagedAt >= i && damagedAt < j {
+			extra = 1
+		}
 		if class {
 			st.CharSections++
-			w.line(fmt.Sprintf("%d beginbfchar", j-i))
-			for _, it := range items[i:j] {
+			charNo++
+			w.line(fmt.Sprintf("%d beginbfchar", j-i+extra))
+			for k, it := range items[i:j] {
+				if extra == 1 && i+k == damagedAt {
+					w.line(damagedLine)
+					st.DamagedSection = fmt.Sprintf("bfchar #%d", charNo)
+				}
 				st.BfChar++
 				w.line(w.hex(it.entries[0].Code) + w.sep() + w.target(it.entries[0].Text))
 			}
@@ -294,8 +335,13 @@ func Render(m *Map, p Policy, r *rand.Rand) ([]byte, Stats) {
 		} else {
 			st.RangeSections++
 			forms := map[string]bool{}
-			w.line(fmt.Sprintf("%d beginbfrange", j-i))
-			for _, it := range items[i:j] {
+			rangeNo++
+			w.line(fmt.Sprintf("%d beginbfrange", j-i+extra))
+			for k, it := range items[i:j] {
+				if extra == 1 && i+k == damagedAt {
+					w.line(damagedLine)
+					st.DamagedSection = fmt.Sprintf("bfrange #%d", rangeNo)
+				}
 				forms[it.kind] = true
 				lo, hi := it.entries[0].Code, it.entries[len(it.entries)-1].Code
 				st.CodesInRanges += len(it.entries)
